@@ -7,7 +7,8 @@
    possible results of handler o from state s after k elapsed seconds (Go map iteration order is
    nondeterminism).  [reachable fixed s0 h s]: s is a possible state after the history h. *)
 From Coq Require Import NArith ZArith List Bool.
-From C30 Require Import Model ModelSpec ProofsArith ProofsRefute ProofsStep.
+From Coq Require Import Permutation.
+From C30 Require Import Model ModelSpec ProofsArith ProofsRefute ProofsStep ProofsOrder ProofsSorted.
 Import ListNotations.
 Local Open Scope Z_scope.
 
@@ -90,6 +91,39 @@ Proof.
   split; [now apply rep_tick_spec|]. split; [now apply rep_tick_range|]. now apply rep_tick_not_banned.
 Qed.
 Print Assumptions C30_saturation.
+
+(* Map-iteration order inside updateTime.  Each elapsed second the Go code visits
+   maps.Keys(ps.nodes) in an unspecified order; the model visits the peers in the order of its
+   association list.  From every state in which the PeersState lock is free and every peer has one
+   entry (both are invariants: C30_invariant gives lk = Unlocked in every reachable state, a Go
+   map has one entry per key), the loop over ANY permutation of the peers returns exactly the
+   result list of the loop over the model's order — one visit touches only the visited peer's
+   entry, and visits of different peers commute.  So the model's fixed order loses no behaviour. *)
+Theorem C30_decay_order_independent : forall s l,
+  lk s = Unlocked -> NoDup (map fst (nodes s)) -> Permutation (map fst (nodes s)) l ->
+  for_each l tick_peer s = for_each (map fst (nodes s)) tick_peer s.
+Proof. exact decay_order_irrelevant_peers. Qed.
+Print Assumptions C30_decay_order_independent.
+
+(* non-vacuity: three peers, one of them decays to 0 while old and not connected and is forgotten;
+   the reverse order gives the same single result, which differs from the state before *)
+Example C30_decay_order_nonvacuous :
+  let s := mkPS [(0%N, mkNode NotConnected (-1) true); (1%N, mkNode Ingoing 100 false); (2%N, mkNode NotConnected (-2000) false)]
+                1 0 2 2 [] Unlocked [] false 0 [] in
+  for_each [2%N; 1%N; 0%N] tick_peer s = for_each [0%N; 1%N; 2%N] tick_peer s /\
+  for_each [0%N; 1%N; 2%N] tick_peer s =
+    [Ret Next (mkPS [(1%N, mkNode Ingoing 98 false); (2%N, mkNode NotConnected (-1960) false)] 1 0 2 2 [] Unlocked [] false 0 [])].
+Proof. split; vm_compute; reflexivity. Qed.
+
+(* The sortedPeers action.  allocSlots uses only the length of its answer (mirrored in Model.v);
+   the answer itself is specified by ModelSpec.sorted_ok — exactly the connected peers, each once,
+   by non-increasing reputation — which the driver evaluates on the answers of the Go action loop
+   (handler harness).  The specification is met by a reference implementation in every state whose
+   node map has one entry per peer. *)
+Theorem C30_sorted_peers_spec : forall s,
+  NoDup (map fst (nodes s)) -> sorted_ok s (sorted_peers s) = true.
+Proof. exact sorted_peers_ok. Qed.
+Print Assumptions C30_sorted_peers_spec.
 
 (* the pinned tree before the fixes violated "a reputation change reported for several peers
    applies to each of them" ... *)
